@@ -1688,9 +1688,14 @@ class Scheduler:
         # Set eval_args on job.
         job.eval_args = eval_args
 
-        # Preprocess arguments before sending them to task function.
-        args, kwargs = job.eval_args
-        args, kwargs = job.args = self._preprocess_args(job, args, kwargs)
+        if job.args is None:
+            # Preprocess arguments before sending them to task function.
+            args, kwargs = job.eval_args
+            args, kwargs = job.args = self._preprocess_args(job, args, kwargs)
+        else:
+            # The job is re-entering after waiting for resource limits. Its arguments were
+            # preprocessed then; doing it again would fork and record its Handles a second time.
+            args, kwargs = job.args
 
         # Check cache using eval_hash as key.
         job.eval_hash, job.args_hash = hash_args_eval(self.type_registry, job.task, args, kwargs)
